@@ -4,7 +4,7 @@ Driver: a REAL PytorchEngineLineOCR built by its real constructor from a generat
 network file whose frame t depends only on pixel columns [4t, 4t+4) (average pooling; a second stub adds a 3-frame receptive
 field).  Zero padding decodes to blank, so a line's own frames cannot legitimately depend on its batch.
 
-Space (configuration lattice): ALL ordered lists of 0..N lines (with repetitions) over a 13-crop alphabet (widths 1,3,4,5,31,32,33,
+Space (configuration lattice): ALL ordered lists of 0..N lines (with repetitions) over a 15-crop alphabet (widths 1,3,4,5,31,32,33,
 100,290,300, two equal-width twins with different content, one crop wider than the smallest engine maximum) x batch size x mode
 {sparse, dense, tight-crop, no-logits} x stub.  Each list is recognised by a fresh engine, then again in reversed order by the SAME
 engine (history), and once through PageOCR.process_page.
@@ -20,17 +20,18 @@ ID = 'C07'
 
 MANIFEST = dict(
     technique='explicit-state enumeration of all ordered line lists x batch sizes x modes x stub networks on the real engine (real constructor, TorchScript stub); differential oracle = each line recognised alone by a fresh engine',
-    text='Bounded exhaustive: every ordered list of 0-2 line crops over a 13-crop alphabet (widths 1..300, equal-width twins, an over-long crop) x batch size {1,2,3,16} (quick) / 1..16 (thorough) x {sparse, dense, tight-crop, no-logits} x two stub networks, every list of 3 crops for batch sizes {1,16} on the local stub (quick) / all batch sizes and both stubs (thorough), lists of 4 over a 6-crop sub-alphabet (thorough), each recognised, recognised again in reverse order on the same engine, and through PageOCR.process_page. At every position the text, the logits on the line\'s own frames and the frame window must equal those of the line recognised alone; sparse storage must hold exactly the dense logits with posterior >= 1e-4.',
+    text='Bounded exhaustive: every ordered list of 0-2 line crops over a 15-crop alphabet (widths 1..300, equal-width twins, an over-long crop) x batch size {1,2,3,16} (quick) / 1..16 (thorough) x {sparse, dense, tight-crop, no-logits} x two stub networks, every list of 3 crops for batch sizes {1,16} on the local stub (quick) / all batch sizes and both stubs (thorough), lists of 4 over a 6-crop sub-alphabet (thorough), each recognised, recognised again in reverse order on the same engine, and through PageOCR.process_page. At every position the text, the logits on the line\'s own frames and the frame window must equal those of the line recognised alone; sparse storage must hold exactly the dense logits with posterior >= 1e-4.',
     note='Stub networks with bounded horizontal receptive field (the property is stated for those); CPU only; float tolerance 1e-5 on logits.',
     ref='3/C07')
 
 H = 8
 C = 4                                   # a, b, c, blank
 CHARS = ['a', 'b', 'c']
-WIDTHS = [1, 3, 4, 5, 31, 32, 33, 100, 290, 300]
+WIDTHS = [1, 3, 4, 5, 31, 32, 33, 100, 290, 300, 440]        # 440: fits the smallest engine maximum (480 px) only after the right padding is cut
 # alphabet entries: (width, content seed)
-CROPS = [(w, i) for i, w in enumerate(WIDTHS)] + [(32, 40), (500, 41), (36, 50)]   # seed 50: very confident frames (dynamic range > 200)
+CROPS = [(w, i) for i, w in enumerate(WIDTHS)] + [(32, 40), (500, 41), (36, 50), (2, 60)]   # seed 50: very confident frames; seed 60: blank crop
 MODES = ['sparse', 'dense', 'tight', 'nologits']
+DEPTH3_QUICK = [0, 4, 5, 7, 8, 9, 10, 11, 12, 14]      # lists of 3 in the quick tier use this sub-alphabet
 BOUNDS = {'quick': dict(depth=3, bs=[1, 2, 3, 16], bs3=[1, 16], ctx3=[0], deep_alphabet=0),
           'thorough': dict(depth=3, bs=list(range(1, 17)), bs3=list(range(1, 17)), ctx3=[0, 1], deep_alphabet=6)}
 BOUNDS['replay'] = BOUNDS['quick']
@@ -51,6 +52,8 @@ def crop(i):
     levels = [(40, 10, 12), (12, 40, 10), (10, 12, 40), (20, 11, 10), (10, 20, 19), (14, 13, 5)]
     if seed == 50:
         levels = [(250, 2, 0), (14, 13, 5), (0, 250, 1), (10, 20, 19), (12, 40, 10), (1, 0, 250)]
+    if seed == 60:
+        return img                        # an entirely blank line (e.g. the cropper's fallback crop): decodes to ''
     for blk in range((w + 3) // 4):
         k = (blk * 7 + seed * 3 + blk // 3) % (len(levels) + 2)
         x0, x1 = 4 * blk, min(w, 4 * blk + 4)
@@ -79,7 +82,7 @@ def todense(x):
 
 def reference(i, bs, ctx, mode):
     """line i recognised alone by a fresh engine with the same pixel budget"""
-    key = (i, bs if CROPS[i][0] + 64 > 480 else 0, ctx, mode)
+    key = (i, bs if CROPS[i][0] + 32 > 480 else 0, ctx, mode)
     if key not in _REF:
         eng = make_engine(bs, ctx)
         t, lg, co = run(eng, [crop(i)], mode)
@@ -108,12 +111,15 @@ def run_shard(shard, ctx, tier):
     b = BOUNDS[tier]
     for n in shard['n']:
         if n == 4:
-            deep = [7, 8, 9, 10, 11, 0][:b['deep_alphabet']]
+            deep = [7, 8, 9, 10, 12, 0][:b['deep_alphabet']]
             if shard['first'] not in deep:
                 continue
             lists = ([shard['first']] + list(r) for r in itertools.product(deep, repeat=3))
         elif 'first' in shard:
-            lists = ([shard['first']] + list(r) for r in itertools.product(range(len(CROPS)), repeat=n - 1))
+            alpha3 = range(len(CROPS)) if tier == 'thorough' else DEPTH3_QUICK
+            if shard['first'] not in alpha3:
+                continue
+            lists = ([shard['first']] + list(r) for r in itertools.product(alpha3, repeat=n - 1))
         else:
             lists = (list(r) for r in itertools.product(range(len(CROPS)), repeat=n))
         for lst in lists:
@@ -151,7 +157,7 @@ def compare(pos, i, got, ref, mode, w, bs, ctx_, K, desc, sub, ctx, padding_is_b
     if list(co) != list(rco):
         ctx.violation('own-window-at-own-position', f'{K}/window', f'{desc}: position {pos}: window {co} vs alone {rco}', sub)
         return False
-    if mode != 'tight' and w + 64 <= 480 * bs:
+    if mode != 'tight' and 32 + w <= 480 * bs:          # the line's own pixels fit (only padding is cut): the window is its un-padded extent
         want = [32 // 4, (32 + w) // 4]
         if list(co) != want:
             ctx.violation('window-covers-unpadded-extent', f'{K}/window-extent', f'{desc}: position {pos}: window {co}, un-padded extent {want}', sub)
@@ -228,7 +234,7 @@ def check_case(case, ctx):
         out3 = run(ee, imgs, mode)
         ctx.executed(2)
         for pos, i in enumerate(lst):
-            key = ('embed', i, bs if CROPS[i][0] + 64 > 480 else 0)
+            key = ('embed', i, bs if CROPS[i][0] + 32 > 480 else 0)
             if key not in _REF:
                 t, lg, co = run(stubs.make_embed_engine(C, CHARS, 2, line_px_height=H, batch_size=bs), [crop(i)], mode)
                 _REF[key] = (t[0], todense(lg[0]), co[0])
@@ -265,7 +271,7 @@ def check_case(case, ctx):
 
 def describe(tier):
     return {
-        'rule': 'all ordered lists of 0..depth crops over the 13-crop alphabet (thorough: + depth 4 over a 6-crop sub-alphabet) x batch sizes x '
+        'rule': 'all ordered lists of 0..depth crops over the 15-crop alphabet (thorough: + depth 4 over a 6-crop sub-alphabet) x batch sizes x '
                 '4 modes x 2 stub networks; each list is recognised twice on one engine (second time reversed) and once through PageOCR. '
                 'state = (list, batch size, stub, mode). Non-trivial: lists with lines of different widths (sorting/padding/permutation matter).',
         'bounds': BOUNDS[tier], 'alphabets': {'crops(width, content)': CROPS, 'modes': MODES, 'stubs(ctx)': STUBS},
